@@ -1326,15 +1326,17 @@ void rtosc::path_search(const rtosc::Ports& root,
         auto is_less = [](const val_on_2 &p1, const val_on_2 &p2) -> bool {
             return strcmp(p1[0].s, p2[0].s) < 0;
         };
+        // the two query strings (if any) are not a path/metadata pair
+        const std::size_t first_path = reply_with_query ? 1 : 0;
         std::size_t n_paths_found = pos >> 1;
-        std::sort((ptr_on_2)args, ((ptr_on_2)(args))+n_paths_found, is_less);
+        std::sort(((ptr_on_2)args)+first_path, ((ptr_on_2)(args))+n_paths_found, is_less);
 
         if (opts == path_search_opts::sorted_and_unique_prefix)
         {
-            std::size_t prev_pos = 0;
-            std::size_t strlen_prev = n_paths_found > 1 ? strlen(args[prev_pos].s) : 0;
+            std::size_t prev_pos = first_path<<1;
+            std::size_t strlen_prev = n_paths_found > first_path + 1 ? strlen(args[prev_pos].s) : 0;
             std::size_t unused_paths = 0;
-            for(pos = 2; pos < (n_paths_found<<1); ++++pos)
+            for(pos = prev_pos + 2; pos < (n_paths_found<<1); ++++pos)
             {
                 assert(args[prev_pos].s); // invariant
 
@@ -1362,7 +1364,7 @@ void rtosc::path_search(const rtosc::Ports& root,
                                                    // is actually already sorted:
                                                    : (strcmp(p1[0].s, p2[0].s) < 0);
             };
-            std::sort((ptr_on_2)args, ((ptr_on_2)(args))+n_paths_found, is_less_2);
+            std::sort(((ptr_on_2)args)+first_path, ((ptr_on_2)(args))+n_paths_found, is_less_2);
 
             // cut off unused paths
             types[(n_paths_found - unused_paths)<<1] = 0;
